@@ -78,6 +78,10 @@ impl<'p> Interp<'p> {
 					let args = self.eval_args(&c.args, None, false)?;
 					return self.call_value(f, args);
 				}
+				if matches!(name.as_str(), "replace" | "swap" | "take") && !self.prog.free_fns.contains_key(&name) {
+					let args = self.eval_args(&c.args, None, false)?;
+					return self.builtin_static("mem", &name, args, hint);
+				}
 				match name.as_str() {
 					"Some" => {
 						let ih = match hint {
@@ -108,7 +112,7 @@ impl<'p> Interp<'p> {
 					"Box" => {}
 					_ => {}
 				}
-				if let Some(d) = self.prog.free_fns.get(&name).cloned() {
+				if let Some(d) = self.find_free_fn(&name) {
 					let args = self.eval_args(&c.args, Some(&d), false)?;
 					let mut tp = HashMap::new();
 					let tf = self.turbofish(&p.path.segments[0]);
@@ -174,7 +178,8 @@ impl<'p> Interp<'p> {
 			}
 		}
 		// Trait::method(x, ..) / T::method where the "type" is a trait: dispatch on the first argument
-		let is_trait = self.prog.trait_methods.contains_key(tyname) || matches!(tyname, "Default" | "From" | "Into" | "Clone" | "PartialEq" | "Iterator" | "ToString" | "FromStr");
+		let unresolved_generic = !self.is_user_type(tyname) && tyname.len() <= 2 && tyname.chars().next().map_or(false, |c| c.is_uppercase()) && ITy::from_name(tyname).is_none();
+		let is_trait = unresolved_generic || self.prog.trait_methods.contains_key(tyname) || matches!(tyname, "Default" | "From" | "Into" | "Clone" | "PartialEq" | "Iterator" | "ToString" | "FromStr");
 		if is_trait {
 			match (tyname, item) {
 				("Default", "default") => {
@@ -555,7 +560,7 @@ impl<'p> Interp<'p> {
 			scope.insert(k.clone(), c.clone());
 		}
 		let tparams = cd.tparams.iter().cloned().collect();
-		self.frames.push(Frame { scopes: vec![scope, HashMap::new()], self_ty: cd.self_ty.clone(), tparams, ret_hint: None, fname: "<closure>".into() });
+		self.frames.push(Frame { scopes: vec![scope, HashMap::new()], self_ty: cd.self_ty.clone(), tparams, ret_hint: None, fname: "<closure>".into(), file: self.cur_file() });
 		self.depth += 1;
 		let mut r: R<V> = Ok(V::Unit);
 		for (p, a) in cd.params.iter().zip(args.into_iter()) {
@@ -772,7 +777,7 @@ impl<'p> Interp<'p> {
 		if let Some(sd) = self.prog.structs.get(head).cloned() {
 			if sd.derives.iter().any(|d| d == "Default") {
 				let mut fs = Vec::new();
-				self.frames.push(Frame { scopes: vec![HashMap::new()], self_ty: Some(head.to_string()), tparams: HashMap::new(), ret_hint: None, fname: "<derive Default>".into() });
+				self.frames.push(Frame { scopes: vec![HashMap::new()], self_ty: Some(head.to_string()), tparams: HashMap::new(), ret_hint: None, fname: "<derive Default>".into(), file: self.cur_file() });
 				let mut err = None;
 				for (n, t) in &sd.fields {
 					let h = self.resolve_type_head(t);
